@@ -79,13 +79,31 @@ impl forwarder::UdpDatagramPipeShared for DatagramTransceiverShared {
             return Ok(());
         }
 
-        let socket = match socks5_client::connect(
-            TcpStream::connect(socks_settings(&self.context.settings).address).await?,
-            self.auth.clone(),
-            socks5_client::Request::UdpAssociate,
+        // The caller is the pipe's only uplink task: while this is awaited no datagram of any
+        // flow is forwarded, so a server that stops answering must not be waited for forever
+        let association = tokio::time::timeout(
+            self.context.settings.connection_establishment_timeout,
+            async {
+                let stream = TcpStream::connect(socks_settings(&self.context.settings).address)
+                    .await
+                    .map_err(socks5_client::Error::Io)?;
+                socks5_client::connect(
+                    stream,
+                    self.auth.clone(),
+                    socks5_client::Request::UdpAssociate,
+                )
+                .await
+            },
         )
         .await
-        {
+        .unwrap_or_else(|_| {
+            Err(socks5_client::Error::Io(io::Error::new(
+                ErrorKind::TimedOut,
+                "SOCKS server did not complete the UDP association in time",
+            )))
+        });
+
+        let socket = match association {
             Ok(socks5_client::ConnectResult::TcpConnection(_)) => unreachable!(),
             Ok(socks5_client::ConnectResult::UdpAssociation(x)) => Arc::new(x),
             Ok(socks5_client::ConnectResult::Failure(x)) => {
